@@ -3,6 +3,6 @@
 ID=$1; M=$2; P=${3:-$ID}
 SRC=${SEEDDIR:-/tmp/mut}/$ID/$M
 cd /repo && git apply $SRC/patch.diff || { echo "PATCH DOES NOT APPLY"; exit 9; }
-cd /verif && timeout 1500 ./check $P --tier quick > /tmp/seedeval/${ID}_${M}_check_$P.log 2>&1; rc=$?
+cd /verif && ASPIRE_VERIF_EVIDENCE_DIR=/tmp/seedeval/evidence timeout 1500 ./check $P --tier quick > /tmp/seedeval/${ID}_${M}_check_$P.log 2>&1; rc=$?
 git -C /repo checkout -- .
 echo "$ID $M -> check $P exit=$rc"; grep -E "^(VIOLATION|UNDECIDED|CHECKER-DEFECT)" /tmp/seedeval/${ID}_${M}_check_$P.log | cut -c1-260 | head -4
